@@ -92,7 +92,9 @@ func e3world(engine string, bufSize int, sizes []int) {
 	for _, rt := range routes {
 		for _, kind := range []string{"json-completion", "usage-tail", "binary"} {
 			for _, framing := range []string{"cl", "chunked", "close"} {
-				for _, status := range []int{200, 500} {
+				// status codes as they are, and as a misbehaving backend may put them on the wire: three digits that are not a
+				// status code net/http's own server side will take (below 100), and ones above 599
+				for _, status := range []int{200, 500, 99, 1, 600, 999} {
 					for _, n := range sizes {
 						if report.Expired() {
 							res.NotExhaustive("E3: time budget")
